@@ -298,6 +298,9 @@ const maxAppendEntries = 64
 // note: never access f.matchIndex in this method, because this is used by pipeline writer also
 func (r *replication) writeAppendEntriesReq(c *conn, req *appendReq, sendEntries bool) error {
 	snapIndex, snapTerm := r.snaps.latest()
+	if verif {
+		verifPoint("repl.preread", r.snaps.dir)
+	}
 
 	// fill req.prevLogXXX
 	req.prevLogIndex = r.nextIndex - 1
@@ -520,6 +523,9 @@ func (r *replication) getEntryTerm(i uint64) (uint64, error) {
 }
 
 func (r *replication) writeEntriesTo(c *conn, from uint64, n uint64) error {
+	if verif {
+		verifPoint("repl.prewrite", r.snaps.dir)
+	}
 	buffs, err := r.log.GetN(from, n)
 	if err != nil {
 		panic(opError(err, "Log.GetN(%d, %d)", from, n))
